@@ -288,6 +288,12 @@ fn main() {
                     if bv.par_count_ones() != ones {
                         bad.push(("BitVec::par_count_ones|wrong-observation".into(), format!("par_count_ones() = {} expected {ones}", bv.par_count_ones())));
                     }
+                    // positions beyond 32 bits through the zero iterator
+                    let zs: Vec<usize> = bv.iter_zeros().collect();
+                    let ez: Vec<usize> = if round == 0 { vec![] } else { vec![5, (1 << 32) - 1] };
+                    if zs != ez {
+                        bad.push(("BitVec::iter_zeros|wrong-observation".into(), format!("iter_zeros() = {zs:?} expected {ez:?}")));
+                    }
                     let a: AtomicBitVec = bv.into();
                     if a.count_ones() != ones || a.count_zeros() != zeros {
                         bad.push(("AtomicBitVec::count_ones|wrong-observation".into(), format!("count_ones() = {} count_zeros() = {} expected {ones} / {zeros}", a.count_ones(), a.count_zeros())));
